@@ -398,7 +398,7 @@ func (p *c16prop) Run(c *core.Case, st *core.Stats) []core.Violation {
 
 func init() {
 	core.Register(&c16prop{base{id: "C16", level: "exploration",
-		rule: "(a) acceptance: configurations of all 7 types with arbitrary field values (0, small, 2^k, +-int64 extremes, random 64-bit; single hostile fields in otherwise valid configurations and fully hostile ones): NewParser succeeds iff Verify of the harness' Clone+SetDefaults copy succeeds, nothing panics, an accepted configuration survives a first use (NewParser is skipped, Verify still checked, when the hash tables would exceed 300 MB); (b) boundary configurations (ShrinkSize = BufferSize-1, BufferSize < InputLen, WindowSize 1, BlockSize 1, all sizes 1, maximal HashBits, MinMatchLen = MaxMatchLen, huge match length limits, huge window/block) and mid-size buffers (1-4 kB, beyond the first allocation sizes) are driven through histories of Write/ReadFrom with faults/Parse (all flags, nil)/Shrink/Reset/probes and through a wrapped parser with a faulty reader: recovered panics, process-fatal errors, CPU-budget exhaustion and errors outside the documented set are violations; non-trivial = every executed case; distinct = distinct concrete case",
+		rule:        "(a) acceptance: configurations of all 7 types with arbitrary field values (0, small, 2^k, +-int64 extremes, random 64-bit; single hostile fields in otherwise valid configurations and fully hostile ones): NewParser succeeds iff Verify of the harness' Clone+SetDefaults copy succeeds, nothing panics, an accepted configuration survives a first use (NewParser is skipped, Verify still checked, when the hash tables would exceed 300 MB); (b) boundary configurations (ShrinkSize = BufferSize-1, BufferSize < InputLen, WindowSize 1, BlockSize 1, all sizes 1, maximal HashBits, MinMatchLen = MaxMatchLen, huge match length limits, huge window/block) and mid-size buffers (1-4 kB, beyond the first allocation sizes) are driven through histories of Write/ReadFrom with faults/Parse (all flags, nil)/Shrink/Reset/probes and through a wrapped parser with a faulty reader: recovered panics, process-fatal errors, CPU-budget exhaustion and errors outside the documented set are violations; non-trivial = every executed case; distinct = distinct concrete case",
 		assumptions: []string{"memory: table sizes above 300 MB are not instantiated", "the documented error set is ErrEmptyBuffer (Parse), ErrFullBuffer (Write/ReadFrom), Reset's error iff len(data) > BufferSize, io.EOF / the reader's error (ReadFrom, wrapped Parse), ErrOutOfBuffer/ErrEndOfBuffer (ReadAt/ByteAt)"},
 		mandatory:   []string{"configs_valid", "configs_invalid", "accepted_configs_used", "histories", "wrapped_streams", "calls_on_accepted_configs", "shrink_discarding"}}})
 }
